@@ -104,3 +104,32 @@ def to_l3(node, style=None):
     st["pow"] = "^"
     st["abs"] = "abs"
     return ref.to_str(node, st)
+
+
+def ast_mag(node, env, time=0.0):
+    """Magnitude bound of an expression evaluated without cancellation (|a|+|b| for a+b and a-b, products of magnitudes): the
+    scale against which rounding differences between algebraically equal forms (an expanded product, a re-ordered sum) are
+    measured.  Falls back to |value| for anything but + - * / and powers."""
+    t = node.getType()
+    nc = node.getNumChildren()
+    mg = lambda i: ast_mag(node.getChild(i), env, time)
+    try:
+        if t in (L.AST_PLUS,):
+            return sum(mg(i) for i in range(nc))
+        if t == L.AST_MINUS:
+            return mg(0) if nc == 1 else mg(0) + mg(1)
+        if t == L.AST_TIMES:
+            v = 1.0
+            for i in range(nc):
+                v *= mg(i)
+            return v
+        if t == L.AST_DIVIDE:
+            b = abs(ast_eval(node.getChild(1), env, time))
+            return mg(0) / b if b > 0 else float("inf")
+        if t in (L.AST_POWER, L.AST_FUNCTION_POWER):
+            b = ast_eval(node.getChild(1), env, time)
+            if b >= 0:
+                return math.pow(mg(0), b)
+        return abs(ast_eval(node, env, time))
+    except (OverflowError, ValueError):
+        return float("inf")
